@@ -12,6 +12,9 @@ func runC03(p *Plan) {
 	perValue := scale(p.Tier, 50, 200)
 	perPath := scale(p.Tier, 3, 8)
 	modes := []string{"none", "none", "empty", "filled"}
+	for _, e := range p.Conly {
+		OpSetUint8Slices(p.Out, e)
+	}
 	for _, e := range p.Types {
 		tr := r.Fork(hashStr(e.Name))
 		for _, vc := range valuesFor(p, e, tr, nRandom) {
